@@ -22,12 +22,12 @@ Proof.
   symmetry. apply Nat.div_unique with (n - 1 - q * (2 * p)); cbn [Nat.pow]; fold p; nia.
 Qed.
 
-Lemma init_walk_spec m n : Closed m n -> 0 < n ->
-  forall h c, exists c', init_walk m h (sub h ((n-1) / 2^h) n) (n-1) c = Some c' /\
+Lemma init_walk_spec H m n : Closed H m n -> 0 < n ->
+  forall h c, h <= H -> exists c', init_walk m h (sub h ((n-1) / 2^h) n) (n-1) c = Some c' /\
     (forall h', h' < h -> c' h' = sub h' (2 * ((n-1) / 2^(S h'))) n) /\
     (forall h', h <= h' -> c' h' = c h').
 Proof.
-  intros Hc Hn. induction h as [|h IH]; intros c; cbn [Merkle.init_walk].
+  intros Hc Hn. induction h as [|h IH]; intros c HhH; cbn [Merkle.init_walk].
   - exists c. split; [reflexivity|]. split; [lia|reflexivity].
   - pose proof (div_pow_bounds (n-1) (S h)) as Hb.
     rewrite (Hc h ((n-1) / 2^(S h))) by lia.
@@ -37,7 +37,7 @@ Proof.
       - rewrite <- (odd_div2 _ Ho). reflexivity.
       - rewrite <- (even_div2 _ Ho). reflexivity. }
     rewrite Hchild.
-    destruct (IH (upd c h (sub h (2 * ((n-1) / 2^(S h))) n))) as (c' & Hw & Hlow & Hhigh).
+    destruct (IH (upd c h (sub h (2 * ((n-1) / 2^(S h))) n)) ltac:(lia)) as (c' & Hw & Hlow & Hhigh).
     exists c'. split; [exact Hw|]. split.
     + intros h' Hh'. destruct (Nat.eq_dec h' h) as [->|Hne].
       * rewrite Hhigh by lia. unfold upd. rewrite Nat.eqb_refl. reflexivity.
@@ -46,11 +46,11 @@ Proof.
 Qed.
 
 (* restart / re-init establishes the frontier invariant *)
-Theorem init_cache_inv m n H c : Closed m n -> 0 < n -> n <= 2^H ->
+Theorem init_cache_inv m n H c : Closed H m n -> 0 < n -> n <= 2^H ->
   exists c', init_walk m H (sub H 0 n) (n-1) c = Some c' /\ CacheInv H n c'.
 Proof.
   intros Hc Hn Hle.
-  destruct (init_walk_spec m n Hc Hn H c) as (c' & Hw & Hlow & _).
+  destruct (init_walk_spec H m n Hc Hn H c (le_n _)) as (c' & Hw & Hlow & _).
   rewrite Nat.div_small in Hw by lia.
   exists c'. split; [exact Hw|].
   intros h Hh Hb. rewrite (Hlow h Hh). f_equal.
